@@ -215,6 +215,7 @@ func Load(dir string, overlay map[string][]byte) (*Program, error) {
 		index()
 	}
 	detectHolders(p)
+	curProgram = p
 	return p, nil
 }
 
@@ -544,6 +545,9 @@ func registerEnv(p *Program, parent, m *ssa.Function) {
 		}
 	}
 }
+
+// curProgram: the program being analysed (one per process).
+var curProgram *Program
 
 // newStructType: a named struct type that the functions the rules were
 // confirmed on do not mention (introduced by a later refactoring).
